@@ -19,7 +19,7 @@ CORPUS = os.path.join(common.ROOT, "corpus", "C16")
 def known_class(p, o):
     """the Known_* class of an occurrence, mirrored by the predicates of props/C16.v over the same data"""
     dead = {d.name for d in p.defs if not d.assembled and d.kind != "param"}
-    if o.text in dead and o.assembled and o.role != "def":
+    if o.assembled and o.role != "def" and any(seg in dead for seg in (o.path or [o.text])):
         return "Known_greedy_untaken_definition"
     return None
 
